@@ -1948,6 +1948,15 @@ def process_module(task) -> dict:
             fr.reason = f"{type(e).__name__}: {e} :: {traceback.format_exc()[-700:]}"
         fr.secs = time.time() - t1
         out["functions"].append(fr)
+    # ---- vector-form modules (law published as Python functions on Vectors): same worker, module already imported
+    from . import c02_vector
+    vec_quals = [fr.qual for fr in out["functions"] if fr.klass == "out_of_reach" and fr.reason.startswith(c02_vector.NO_EQUATION)]
+    if vec_quals:
+        try:
+            out["vector"] = c02_vector.process(mod, path, tier, sd, vec_quals)
+        except Exception as e:  # noqa: BLE001
+            out["vector"] = {"fault": f"{short(modname)}: vector-form harness crashed: {type(e).__name__}: {e} :: "
+                                      f"{traceback.format_exc()[-700:]}"}
     out["secs"] = time.time() - t0
     return out
 
